@@ -57,6 +57,7 @@ func genConfig(t *rapid.T, o cfgGenOpts) Config {
 	c.IdxSize = sizeChoices[weighted(t, "idxsize", sw)]
 	c.PrimSize = sizeChoices[weighted(t, "primsize", sw)]
 	c.FileCache = []int{0, 1, 2, 512}[weighted(t, "filecache", []int{2, 2, 2, 4})]
+	c.Sync = weighted(t, "syncOnFlush", []int{4, 1}) == 1
 	return c
 }
 
